@@ -44,6 +44,72 @@ UNITS['mtag_index_gate'] = dict(file=DA, locator=r'void\s+getOffsetAndCount\s*\(
     # starts at the statement before the gate so that a guard for the empty list is part of the region
     region=dict(start=r'if\s*\(\s*extents\s*\)\s*\{\s*extent_size\s*=', end=r'(?=size_t\s+dimcount_sizet\s*=)',
                 params=[('const std::vector<ndsize_t> &', 'indices'), ('const DataArray &', 'positions'), ('const DataArray &', 'extents'), ('NDSize &', 'extent_size')]))
+def index_list_ctor(ctx, toks):
+    """std::vector<ndsize_t> NAME(1, X);  (count, value constructor)  ->  vec_ndsize NAME = mk_vec_ndsize_fill(1, X);"""
+    out = []; i = 0
+    while i < len(toks):
+        if toks[i].t == 'vec_ndsize' and i + 2 < len(toks) and toks[i + 1].k == 'id' and toks[i + 2].t == '(':
+            out.extend([toks[i], toks[i + 1]]); out.extend(tokenize(' = mk_vec_ndsize_fill')); i += 2; fire(ctx, 'vector-fill-ctor'); continue
+        out.append(toks[i]); i += 1
+    return out
+def list_call_index(ctx, toks):
+    """featureData(...)[0]  (element of the returned vector)  ->  featureData_mtag_list(...).data[0]"""
+    from cxx2c import match_close
+    out = []; i = 0
+    while i < len(toks):
+        out.append(toks[i])
+        if toks[i].t == 'featureData_mtag_list' and toks[i + 1].t == '(':
+            e = match_close(toks, i + 1)
+            out.extend(toks[i + 1:e + 1]); i = e + 1
+            if toks[i].t == '[':
+                out.append(P('.', '')); out.append(Tok('id', 'data', '')); fire(ctx, 'call-result-index')
+            continue
+        i += 1
+    return out
+def single_overload(ctx, toks):
+    """overload resolution by argument type, for the one case a changed body may produce: featureData(tag, <scalar position>, <Feature>[, match]) is the
+       single-position overload taking the feature (its own unit), not the list overload"""
+    from cxx2c import match_close, split_args
+    for i, t in enumerate(toks):
+        if t.t == 'featureData' and toks[i + 1].t == '(':
+            e = match_close(toks, i + 1)
+            args = split_args(toks[i + 2:e])
+            if len(args) in (3, 4) and len(args[1]) == 1 and args[1][0].t == 'position_index' and [x.t for x in args[2]][:1] != ['feature_index']:
+                t.t = 'featureData_mtag_pos_feature'; fire(ctx, 'overload-by-argument-type')
+    return toks
+import props.c05 as _c05
+SINGLE_DEFAULTS = _c05.default_args({'featureData_mtag_pos_feature': ('include/nix/util/dataAccess.hpp', r'DataView\s+featureData\s*\((?=\s*const\s+MultiTag\s*&\s*tag\s*,\s*ndsize_t\s+position_index\s*,\s*const\s+Feature)', 4)})
+LSUBS = [(['start_positions', '[', 'dim_index', ']'], 'starts_d'), (['end_positions', '[', 'dim_index', ']'], 'ends_d'), (['units', '[', 'dim_index', ']'], 'unit_d'),
+         (['dimensions', '[', 'dim_index', ']'], 'dimension_d')]
+def lookup_rules(ctx, toks):
+    """region live-ins (the vectors of dimension dim_index), ghost vector types, and  vector<string> temp_units(N, U);  ->  vec_string_g temp_units = mk_vec_string_g_fill(N, U);"""
+    out = []; i = 0
+    while i < len(toks):
+        for seq, name in LSUBS:
+            if seq_at(toks, i, seq):
+                out.append(Tok('id', name, toks[i].ws)); i += len(seq); fire(ctx, 'region-live-in'); break
+        else:
+            out.append(toks[i]); i += 1
+    toks = out; out = []; i = 0
+    while i < len(toks):
+        t = toks[i]
+        if t.t == 'vec_string' and toks[i + 1].k == 'id' and toks[i + 2].t == '(':
+            out.extend(tokenize('%svec_string_g %s = mk_vec_string_g_fill' % (t.ws, toks[i + 1].t))); ctx.env[toks[i + 1].t] = ('vec_string_g', False); i += 2; fire(ctx, 'vector-fill-ctor'); continue
+        if t.t == 'vec_opt_pair' and toks[i + 1].k == 'id':
+            out.append(Tok('id', 'vec_opt_pair_g', t.ws)); i += 1; continue
+        out.append(t); i += 1
+    return out
+UNITS['mtag_lookup_dim'] = dict(file=DA, locator=r'void\s+getOffsetAndCount\s*\((?=\s*const\s+MultiTag\s*&\s*tag\s*,\s*const\s+DataArray\s*&\s*array\s*,\s*const\s+vector)',
+    classes=['vec_double_g', 'vec_string_g', 'vec_opt_pair_g', 'vec_rows_g', 'Dimension', 'nstring'], pre_rules=[lookup_rules], calls={'positionToIndex': 'positionToIndex_vec'},
+    region=dict(start=r'vector<string>\s+temp_units\(', end=r'data_indices\.push_back\(ranges\);',
+                params=[('vec_double_g &', 'starts_d'), ('vec_double_g &', 'ends_d'), ('const std::string &', 'unit_d'), ('RangeMatch', 'match'), ('const Dimension &', 'dimension_d'), ('vec_rows_g &', 'data_indices')]))
+LKX = 'int gh_lk_calls, gh_lk_starts, gh_lk_ends, gh_lk_unit, gh_lk_rows_pushed, gh_lk_row_serial, gh_unspecified; size_t gh_lk_units_n; RangeMatch gh_lk_match;\n'
+SCL = ['MultiTag', 'Feature', 'DataView']
+UNITS['featureData_mtag_pos_index'] = dict(file=DA, locator=r'DataView\s+featureData\s*\((?=\s*const\s+MultiTag\s*&\s*tag\s*,\s*ndsize_t\s+position_index\s*,\s*ndsize_t\s+feature_index)', classes=SCL,
+    pre_rules=[index_list_ctor, single_overload, SINGLE_DEFAULTS], post_rules=[list_call_index], calls={'featureData': 'featureData_mtag_list'})
+UNITS['featureData_mtag_pos_feature'] = dict(file=DA, locator=r'DataView\s+featureData\s*\((?=\s*const\s+MultiTag\s*&\s*tag\s*,\s*ndsize_t\s+position_index\s*,\s*const\s+Feature)', classes=SCL,
+    pre_rules=[index_list_ctor], post_rules=[list_call_index], calls={'featureData': 'featureData_mtag_list'})
+SGX = 'int gh_list_calls, gh_get_calls; size_t gh_list_n; ndsize_t gh_list_first, gh_list_feature; RangeMatch gh_list_match; DataView gh_answer[1];\n'
 EXTRA = ('size_t gh_max_idx; int gh_mtagged_calls;\n' + 'opt_ndsize gh_ge; opt_pair gh_pair; double gh_pair_start, gh_pair_end; RangeMatch gh_pair_match; int gh_pair_calls; int gh_pushed;\nint gh_views; size_t gh_view_count_rank, gh_view_offset_rank; ndsize_t gh_view_count_k, gh_view_offset_k; const ndsize_t *gh_view_extent_dims;\n'
          'int gh_tagged_calls, gh_backend_feature_gets, gh_backend_reference_gets; ndsize_t gh_backend_get_index;\n')
 ACC = ['NDSize_size', 'NDSize_at', 'NDSize_bool', 'NDSize_allocate', 'NDSize_fill', 'NDSize_ctor_fill', 'NDSize_copy_ctor']
@@ -63,7 +129,9 @@ for j in rank_cases(dict(name='mtag_untagged_whole', bodies=ACC + ['mtag_untagge
     r = int(j['name'].split('rank=')[1].rstrip(']'))
     j['tiers'] = ('quick', 'thorough') if r <= 3 else ('thorough',)
     JOBS.append(j)
-SPEC = dict(contracts=['nd.h', 'dv.h', 'c05_tag.h', 'c06_mtag.h'], stubs=['dataarray.h'], include_order=['nd.h', 'dataarray.h', 'dv.h', 'c05_tag.h', 'c06_mtag.h'], units=UNITS, jobs=JOBS,
+JOBS += [dict(name=fn, bodies=[fn], enforce=[fn], replace=[], includes=['c06_single.h'], extra_c=SGX, expect_kinds=['postcondition'], timeout=300) for fn in ('featureData_mtag_pos_index', 'featureData_mtag_pos_feature')]
+JOBS.append(dict(name='mtag_lookup_dim', bodies=['mtag_lookup_dim'], enforce=['mtag_lookup_dim'], replace=[], includes=['c06_lookup.h'], extra_c=LKX, expect_kinds=['postcondition'], timeout=300))
+SPEC = dict(contracts=['nd.h', 'dv.h', 'c05_tag.h', 'c06_mtag.h', 'c06_single.h', 'c06_lookup.h'], stubs=['dataarray.h'], include_order=['nd.h', 'dataarray.h', 'dv.h', 'c05_tag.h', 'c06_mtag.h'], units=UNITS, jobs=JOBS,
             trusted_base=['CBMC 6.11.0 (C front end, --dfcc, SAT back end)', 'vlib/cxx2c.py idiom map incl. region units; vector element accesses of the enclosing function become scalar live-in parameters of the region'] + ND_TRUST +
                          ['ghost inputs: the index pair of the region and GreaterOrEqual(position) (C07 contracts, not connected here); assumed: DataView construction and positionAndExtentInData contracts (see C05)'],
             assumptions=['KERNEL ONLY: the two regions named above. Reading the positions/extents rows, padding of unspecified dimensions, unit scaling, the index-list gate (max_element) and the list = map(single) loop structure are NOT covered'])
